@@ -194,6 +194,48 @@ Theorem C17_restore_vrun : forall b st ts, s_cell (srun false b (vrun_ops st (un
 Proof. intros b st ts. exact (nested_restores b _ (vrun_ops_nested st (units_of ts) [] n_nil) s_init). Qed.
 Print Assumptions C17_restore_vrun.
 
+(* a run that executes nothing -- `doit run` ended with a user error before any task was started
+   (a name on the command line that is no task / target, a task_dep or setup naming a task that
+   does not exist, two tasks with one target, an invalid option value, an unknown reporter), or no
+   task was selected: it is the empty sequence of events, and whatever state it is started in (the
+   embedding program may have installed streams of its own) that state, both cells included, is
+   untouched.  An instance of C17_restore_run / C17_restore_vrun (tasks = []), stated explicitly.
+   NOT in this model: what the `run` command itself does to the cells outside action executions.
+   JsonReporter.__init__ (reporter.py 228-233) replaces sys.stdout / sys.stderr by StringIO objects
+   and only complete_run (276-280, called by Runner.finish) puts them back; that swap is modelled in
+   Model/Report.v (C19: field w_swapped of `world`, set by `init`, cleared by `unswap` at
+   CComplete), where it decides what reaches the real stdout -- here it is EXERCISED: part H of
+   harness/c17.py ends runs with every kind of user error under every reporter and runner option,
+   in-process and through the command line, and demands the original objects in both cells, the
+   error text on the original stderr and that what is written after the run arrives
+   (C17_after_run_writes is the model side of that last demand). *)
+Theorem C17_restore_empty_run : forall lg b v st s,
+  run_ops v [] [] = [] /\ vrun_ops st (units_of []) [] = [] /\
+  fold_left (sstep lg b) (run_ops v [] []) s = s /\
+  fold_left (sstep lg b) (vrun_ops st (units_of []) []) s = s.
+Proof.
+  intros lg b v st s.
+  exact (conj (empty_run_ops v) (conj (empty_vrun_ops st) (empty_run_untouched lg b v st s))).
+Qed.
+Print Assumptions C17_restore_empty_run.
+
+(* what the program that called the run writes afterwards goes to the original streams,
+   completely and in order, and leaves them installed -- after every run, whatever its actions did;
+   after the run that executed nothing the original stream holds exactly that and no action holds
+   anything *)
+Theorem C17_after_run_writes : forall b v tasks st ts ws,
+  (let s' := srun false b (run_ops v tasks [] ++ wops ws) in
+   s_cell s' = SOrig /\ s_orig s' = s_orig (srun false b (run_ops v tasks [])) ++ chunks b ws) /\
+  (let s' := srun false b (vrun_ops st (units_of ts) [] ++ wops ws) in
+   s_cell s' = SOrig /\ s_orig s' = s_orig (srun false b (vrun_ops st (units_of ts) [])) ++ chunks b ws) /\
+  (let s' := srun false b (run_ops v [] [] ++ wops ws) in
+   s_cell s' = SOrig /\ s_orig s' = chunks b ws /\ (forall i, s_attr s' i = None)).
+Proof.
+  intros b v tasks st ts ws.
+  exact (conj (after_run_writes b v tasks ws) (conj (after_vrun_writes b st ts ws) (after_empty_run_writes b v ws))).
+Qed.
+Print Assumptions C17_after_run_writes.
+
 (* one action of a task executed by a runner: captured whatever the verbosity, shown live as the
    EFFECTIVE verbosity dictates (0 nothing, 1 stderr, otherwise both), with or without setup tasks *)
 Theorem C17_live_follows_effective_partial : forall st hs raw cap ws e,
@@ -250,6 +292,13 @@ Example C17_verbosity_nonvacuous :
   observe [1; 2]%nat [] (srun false false (vrun_ops (cmd_stream None (Some 1)) (units_of ts) [])) = [0; -2; 1; -2; 3; -3; 3] /\
   observe [1; 2]%nat [] (srun false true (vrun_ops (cmd_stream None (Some 1)) (units_of ts) [])) = [0; -2; 2; -2; 4; -3; 2; 4].
 Proof. vm_compute. auto 6. Qed.
+
+(* `doit run nosuch`: nothing is executed; what the caller writes afterwards (chunk 1 to stdout,
+   chunk 2 to stderr) is on the original streams, which are still installed *)
+Example C17_empty_run_nonvacuous :
+  observe [] [] (srun false false (run_ops 1 [] [] ++ wops [(false, 1); (true, 2)])) = [0; -3; 1] /\
+  observe [] [] (srun false true (run_ops 1 [] [] ++ wops [(false, 1); (true, 2)])) = [0; -3; 2].
+Proof. vm_compute. auto. Qed.
 
 (* two executions that overlap without being nested (two worker threads of the thread runner)
    leave a Writer installed: the statement cannot be extended to all interleavings (finding K1) *)
